@@ -369,7 +369,7 @@ def e2e(c, root):
     return checked
 
 
-STEMS = ["profiles", "packages", "dbt_project", "selectors", "dependencies", "schema", "sources", "config", "index", "models", "metrics", "cubes", "views"]
+STEMS = ["catalog", "atscale", "profiles", "packages", "dbt_project", "selectors", "dependencies", "schema", "sources", "config", "index", "models", "metrics", "cubes", "views"]
 
 
 def stem_names(c, root, stats):
@@ -383,7 +383,7 @@ def stem_names(c, root, stats):
             continue
         # control: the same model under a harmless name is handled by the format's own adapter
         ok_names = []
-        for stem in ["lookup_m"] + (STEMS if c.tier == "thorough" else STEMS[:5] + [STEMS[5 + c.seed % 8]]):
+        for stem in ["lookup_m"] + (STEMS if c.tier == "thorough" else STEMS[:7] + [STEMS[7 + c.seed % 8]]):
             d = tempfile.mkdtemp(prefix="s_", dir=root)
             try:
                 g = c12.layer_with([Model(name=stem, table="customers", primary_key="id", dimensions=[Dimension(name="region", type="categorical")], metrics=[Metric(name="cnt", agg="count")])]).graph
@@ -392,17 +392,24 @@ def stem_names(c, root, stats):
                 files = [os.path.join(r, f) for r, _, fs in os.walk(d) for f in fs]
                 if not any(stem in (own_models(key, fp) or []) for fp in files):
                     continue                       # the format's own adapter does not read this model back: outside the premise
-                logging.disable(logging.CRITICAL)
-                try:
-                    L = SemanticLayer(connection="duckdb:///:memory:", auto_register=False)
-                    load_from_directory(L, d)
-                    err = None
-                except Exception as e:
-                    err = e
-                finally:
-                    logging.disable(logging.NOTSET)
-                m = None if err is not None else L.graph.models.get(stem)
-                good = m is not None and getattr(m, "_source_format", None) == LOADER_NAME[key]
+                # loaded from the export's parent folder and from the folder that DIRECTLY holds the model's file (a file called catalog.yml at the top of the loaded
+                # directory is still its own format's file)
+                own_dir = next(os.path.dirname(fp) for fp in files if stem in (own_models(key, fp) or []))
+                good, err, m = True, None, None
+                for load_dir in dict.fromkeys([d, own_dir]):
+                    logging.disable(logging.CRITICAL)
+                    try:
+                        L = SemanticLayer(connection="duckdb:///:memory:", auto_register=False)
+                        load_from_directory(L, load_dir)
+                        err = None
+                    except Exception as e:
+                        err = e
+                    finally:
+                        logging.disable(logging.NOTSET)
+                    m = None if err is not None else L.graph.models.get(stem)
+                    good = m is not None and getattr(m, "_source_format", None) == LOADER_NAME[key]
+                    if not good:
+                        break
                 if stem == "lookup_m":
                     if not good:
                         break                      # control fails: a listed / other problem of this format, not a matter of names
